@@ -10,6 +10,7 @@
    tests the entry name; patterns compiled before anything else in Remove / CleanDir / Zip).
    Regular expressions: C08/Regex.v (syntax, derivative matcher, unanchored search = regexp.MatchString). *)
 From Coq Require Import List ZArith Bool.
+From Coq Require String.
 Import ListNotations.
 From GU Require Import C08.Regex.
 Local Open Scope Z_scope.
@@ -230,7 +231,17 @@ Definition subset (a b : list entry) : bool := forallb (fun x => existsb (entry_
 Definition same_entries (a b : list entry) : bool :=
   subset a b && subset b a && Nat.eqb (length a) (length b).
 
+(* a function of the package that hands its arguments on (Gen.v: gen_wrappers) *)
+Record wrapper := mkW {
+  w_name : String.string;
+  w_global : bool;          (* package-level function forwarding to the global file system *)
+  w_patterns : bool;        (* has an exclusion-pattern parameter *)
+  w_forwards_all : bool     (* hands ALL its parameters on (global wrapper) / spreads its patterns into a call *)
+}.
+
 Inductive case :=
+| CWrap (name : String.string) (c : case)                     (* the call went through the package-level function [name] *)
+| CExcludeAll (raw : list rawpat) (names : list str) (obs_invalid : bool) (obs : list str)   (* ExcludeAll(names, raw...) *)
 | COp (op : opk) (raw : list rawpat) (root dest base : str) (t : node)
       (obs_invalid : bool) (obs : list entry)
 | CMatch (r : re) (s : str) (obs_full obs_search : bool)      (* regexp: ^(?:r)$ and r against s *)
@@ -439,8 +450,16 @@ Definition grun_op (op : opk) (raw : list rawpat) (root dest base : str) (t : no
 End Generic.
 
 (* evaluated by the correspondence on the GENERATED facts (Gen.v: check_case_gen := gcheck_case gen) *)
-Definition gcheck_case (F : facts) (c : case) : bool :=
+Fixpoint gcheck_case (F : facts) (W : list wrapper) (c : case) : bool :=
   match c with
+  | CWrap name c' =>
+      (* a wrapper that does not forward everything is outside the model *)
+      existsb (fun w => String.eqb (w_name w) name && w_forwards_all w) W && gcheck_case F W c'
+  | CExcludeAll raw names obs_invalid obs =>
+      match gcompile F raw with
+      | None => Bool.eqb obs_invalid (x_invalid_kind F)
+      | Some pats => negb obs_invalid && rel_eqb (filter (kept F (gexpand F pats)) names) obs
+      end
   | COp op raw root dest base t obs_invalid obs =>
       match grun_op F op raw root dest base t with
       | GInvalid => obs_invalid
@@ -455,6 +474,10 @@ Definition gcheck_case (F : facts) (c : case) : bool :=
       | Some pats => Bool.eqb (excl (gexpand F pats) s) o
       end
   end.
+
+(* what calling an operation THROUGH a forwarding function gives *)
+Definition grun_wrapper (F : facts) (w : wrapper) (op : opk) (raw : list rawpat) (root dest base : str) (t : node) : gresult :=
+  if w_forwards_all w then grun_op F op raw root dest base t else GUnmodelled.
 
 (* the facts the hand-written definitions above correspond to *)
 Definition expected_facts : facts := {|
@@ -478,4 +501,4 @@ Definition facts_before_fix : facts := {| x_skip_blank := x_skip_blank expected_
 (* written to Gen.v when the translator cannot read the source (unknown statement shape): every operation is outside
    the model, nothing can be proved of it *)
 Definition facts_unreadable : facts := {| x_skip_blank := false; x_forms := []; x_invalid_kind := false; x_keep_unmatched := false; walk_own := true; walk_root := false; walk_child := false; walk_down := false; ls_own := true; ls_filter := false; lsrec_own := true; lsrec_with_pats := false; tree_own := true; tree_filtered := false; tree_down := false; sub_own := true; sub_tested := TNone; sub_requires_dir := false; copy_own := true; copy_top_test := (false, false); copy_folder_test := (false, false); copy_file_test := (false, false); copy_filtered := false; copy_down := false; zip_own := true; zip_validates_first := false; zip_with_pats := false; rm_own := true; rm_validates_first := false; rm_cleans_with_pats := false; rm_stops_if_nonempty := false; rm_final_on_tested := false; rm_nested_name := false; rm_nested_down := false; clean_own := true; clean_validates_first := false; clean_filtered := false; clean_down := false |}.
-Definition check_case (c : case) : bool := gcheck_case expected_facts c.
+Definition check_case (c : case) : bool := gcheck_case expected_facts [] c.
